@@ -1,1 +1,166 @@
-theorem C02_placeholder : True := trivial
+import JmesVerif.Lemmas.Builtins
+/-!
+# C02 — every built-in function computes the value the specification defines
+
+Contracts of the builtins over the model of `functions.rs` (`Model/Interp.lean`), each for *all*
+well-typed arguments.  `vle a b` is the order `sort` uses (`Val.cmp a b ≠ Greater`: code-point
+order on strings, order of the double image on numbers); `Homog xs` = all strings or all (finite)
+numbers, which is what the signature `array[string]|array[number]` admits.
+Helper lemmas and the remaining contracts (join, keys/values lookup, to_array, type, sum, …) are in
+`Lemmas/Builtins.lean` (57 theorems); the principal ones are restated here.
+-/
+namespace JmesVerif
+
+/-- **sort is a stable ascending permutation** (any length, duplicate keys included) -/
+theorem C02_sort (args : List Val) (off : Nat) (hv : Builtin.sort.sig.validate args off = .ok ())
+    (hfin : ∀ xs n, args = [.arr xs] → Val.num n ∈ xs → n.toF64.isFinite = true) :
+    ∃ xs ys, args = [.arr xs] ∧ Builtin.pure .sort args = .ok (.arr ys) ∧ ys.Perm xs ∧
+      ys.Pairwise (fun a b => vle a b = true) ∧
+      ∀ a b, vle a b = true → [a, b].Sublist xs → [a, b].Sublist ys :=
+  sort_spec args off hv hfin
+
+theorem C02_sort_perm (xs : List Val) : (sortVals xs).Perm xs := sort_perm xs
+theorem C02_sort_sorted (xs : List Val) (h : Homog xs) : (sortVals xs).Pairwise (fun a b => vle a b = true) :=
+  sort_sorted xs h
+theorem C02_sort_stable (xs : List Val) (h : Homog xs) (a b : Val) (hab : vle a b = true)
+    (hs : [a, b].Sublist xs) : [a, b].Sublist (sortVals xs) := sort_stable xs h a b hab hs
+
+/-- string order is code-point order -/
+theorem C02_string_order (a b : String) : Val.cmp (.str a) (.str b) = compare a b := rfl
+
+/-- **sort_by**: evaluates the expression reference once per element (first element, then `keysTyped`
+over the rest, in order) and returns the elements in a stable ascending order of their keys -/
+theorem C02_sort_by (rt : Registry) (fuel : Nat) (x : Val) (rest : List Val) (a : Ast) (off off1 off2 : Nat)
+    (k0 : Val) (ks : List Val) (h1 : interp rt fuel x a off = .ok (k0, off1))
+    (hty : k0.type = .string ∨ k0.type = .number)
+    (h2 : keysTyped rt fuel rest a k0.type 1 off1 = .ok (ks, off2)) (hh : Homog (k0 :: ks)) :
+    ∃ ps, callFn rt (fuel + 1) (.builtin .sortBy) [.arr (x :: rest), .expref a] off = .ok (.arr (ps.map (·.1)), off2) ∧
+      ps.Perm ((x :: rest).zip (k0 :: ks)) ∧ (ps.map (·.1)).Perm (x :: rest) ∧
+      ps.Pairwise (fun p q => vle p.2 q.2 = true) ∧
+      ∀ p q, vle p.2 q.2 = true → [p, q].Sublist ((x :: rest).zip (k0 :: ks)) → [p, q].Sublist ps :=
+  sortBy_spec rt fuel x rest a off off1 off2 k0 ks h1 hty h2 hh
+
+/-- **max_by / min_by** return an input element whose key is extreme — the first such on ties -/
+theorem C02_max_by (rt : Registry) (fuel : Nat) (x : Val) (rest : List Val) (a : Ast) (off off1 off2 : Nat)
+    (k0 : Val) (ks : List Val) (h1 : interp rt fuel x a off = .ok (k0, off1))
+    (hty : k0.type = .string ∨ k0.type = .number)
+    (h2 : keysTyped rt fuel rest a k0.type 1 off1 = .ok (ks, off2)) (hh : Homog (k0 :: ks)) :
+    ∃ p pre suf, byExtreme rt (fuel + 1) true (x :: rest) a off = .ok (p.1, off2) ∧
+      (x :: rest).zip (k0 :: ks) = pre ++ p :: suf ∧ (∀ q ∈ pre, Val.cmp p.2 q.2 = .gt) ∧
+      (∀ q ∈ suf, vle q.2 p.2 = true) ∧ (∀ q ∈ (x :: rest).zip (k0 :: ks), vle q.2 p.2 = true) :=
+  maxBy_spec rt fuel x rest a off off1 off2 k0 ks h1 hty h2 hh
+
+theorem C02_min_by (rt : Registry) (fuel : Nat) (x : Val) (rest : List Val) (a : Ast) (off off1 off2 : Nat)
+    (k0 : Val) (ks : List Val) (h1 : interp rt fuel x a off = .ok (k0, off1))
+    (hty : k0.type = .string ∨ k0.type = .number)
+    (h2 : keysTyped rt fuel rest a k0.type 1 off1 = .ok (ks, off2)) (hh : Homog (k0 :: ks)) :
+    ∃ p pre suf, byExtreme rt (fuel + 1) false (x :: rest) a off = .ok (p.1, off2) ∧
+      (x :: rest).zip (k0 :: ks) = pre ++ p :: suf ∧ (∀ q ∈ pre, Val.cmp q.2 p.2 = .gt) ∧
+      (∀ q ∈ suf, vle p.2 q.2 = true) ∧ (∀ q ∈ (x :: rest).zip (k0 :: ks), vle p.2 q.2 = true) :=
+  minBy_spec rt fuel x rest a off off1 off2 k0 ks h1 hty h2 hh
+
+/-- **max / min**: null on the empty array, otherwise an element that bounds all others -/
+theorem C02_max (args : List Val) (off : Nat) (hv : Builtin.max.sig.validate args off = .ok ())
+    (hfin : ∀ xs n, args = [.arr xs] → Val.num n ∈ xs → n.toF64.isFinite = true) :
+    ∃ xs v, args = [.arr xs] ∧ Builtin.pure .max args = .ok v ∧
+      ((xs = [] ∧ v = .null) ∨ (v ∈ xs ∧ (∀ x ∈ xs, vle x v = true) ∧
+        ∃ pre suf, xs = pre ++ v :: suf ∧ ∀ x ∈ suf, Val.cmp v x = .gt)) :=
+  max_spec args off hv hfin
+
+theorem C02_min (args : List Val) (off : Nat) (hv : Builtin.min.sig.validate args off = .ok ())
+    (hfin : ∀ xs n, args = [.arr xs] → Val.num n ∈ xs → n.toF64.isFinite = true) :
+    ∃ xs v, args = [.arr xs] ∧ Builtin.pure .min args = .ok v ∧
+      ((xs = [] ∧ v = .null) ∨ (v ∈ xs ∧ (∀ x ∈ xs, vle v x = true) ∧
+        ∃ pre suf, xs = pre ++ v :: suf ∧ ∀ x ∈ pre, Val.cmp x v = .gt)) :=
+  min_spec args off hv hfin
+
+/-- **merge is right-biased**: a key's value is that of the last argument object having the key -/
+theorem C02_merge (k : String) (args : List Val) :
+    ∃ m, Builtin.pure .merge args = .ok (.obj m) ∧ Val.lookup k m = lastBinding k args :=
+  merge_lookup k args
+
+/-- **length / reverse count Unicode code points** -/
+theorem C02_length_codepoints (s : String) : Builtin.pure .length [.str s] = .ok (.num (.pos s.toList.length)) :=
+  length_str s
+theorem C02_reverse_codepoints (s : String) :
+    Builtin.pure .reverse [.str s] = .ok (.str (String.ofList s.toList.reverse)) := reverse_str s
+
+/-- **keys and values correspond pairwise** -/
+theorem C02_keys_values (kvs : List (String × Val)) :
+    ∃ (ks : List String) (vs : List Val), Builtin.pure .keys [.obj kvs] = .ok (.arr (ks.map .str)) ∧
+      Builtin.pure .values [.obj kvs] = .ok (.arr vs) ∧ ks.zip vs = kvs ∧ ks.length = kvs.length ∧ vs.length = kvs.length :=
+  keys_values_zip kvs
+
+/-- **to_number yields a number or null and nothing else** -/
+theorem C02_to_number (a : Val) :
+    (∃ n, Builtin.pure .toNumber [a] = .ok (.num n)) ∨ Builtin.pure .toNumber [a] = .ok .null :=
+  toNumber_cases a
+
+/-- **avg of an empty array is null**; otherwise sum / length in double arithmetic -/
+theorem C02_avg_empty : Builtin.pure .avg [.arr []] = .ok .null := avg_empty
+theorem C02_avg (xs : List Val) (h : xs ≠ []) :
+    Builtin.pure .avg [.arr xs] = numOfF64 (F64.div (sumF64 xs) (F64.ofNat xs.length)) "Expected to be a valid f64" :=
+  avg_nonempty xs h
+
+/-- **map keeps nulls and preserves length**; the reference is evaluated once per element, against
+that element, in order -/
+theorem C02_map_length (rt : Registry) (fuel : Nat) (a : Ast) (xs : List Val) (off : Nat) (v : Val) (off' : Nat)
+    (h : callFn rt (fuel + 1) (.builtin .map) [.expref a, .arr xs] off = .ok (v, off')) :
+    ∃ ys, v = .arr ys ∧ ys.length = xs.length := map_length rt fuel a xs off v off' h
+
+theorem C02_expref_once_per_element (rt : Registry) (fuel : Nat) (x : Val) (xs : List Val) (a : Ast) (off : Nat) :
+    mapExpref rt (fuel + 1) (x :: xs) a off =
+      (match interp rt fuel x a off with
+       | .error e => .error e
+       | .ok (v, off) =>
+         match mapExpref rt fuel xs a off with
+         | .error e => .error e
+         | .ok (vs, off) => .ok (v :: vs, off)) := mapExpref_cons rt fuel x xs a off
+
+/-- **not_null** returns the first non-null argument -/
+theorem C02_not_null (args : List Val) :
+    (∃ pre v suf, args = pre ++ v :: suf ∧ (∀ x ∈ pre, x = .null) ∧ v ≠ .null ∧ Builtin.pure .notNull args = .ok v) ∨
+    ((∀ x ∈ args, x = .null) ∧ Builtin.pure .notNull args = .ok .null) := notNull_spec args
+
+/-- **contains / starts_with / ends_with** are infix / prefix / suffix on code points -/
+theorem C02_contains (s n : String) :
+    Builtin.pure .contains [.str s, .str n] = .ok (.bool true) ↔ ∃ pre suf, s.toList = pre ++ n.toList ++ suf :=
+  contains_str_iff s n
+theorem C02_starts_with (s t : String) :
+    Builtin.pure .startsWith [.str s, .str t] = .ok (.bool true) ↔ ∃ suf, s.toList = t.toList ++ suf :=
+  startsWith_iff s t
+theorem C02_ends_with (s t : String) :
+    Builtin.pure .endsWith [.str s, .str t] = .ok (.bool true) ↔ ∃ pre, s.toList = pre ++ t.toList :=
+  endsWith_iff s t
+
+theorem C02_join (glue : String) (ss : List String) :
+    Builtin.pure .join [.str glue, .arr (ss.map .str)] = .ok (.str (glue.intercalate ss)) := join_eq glue ss
+
+/-! non-vacuity -/
+example : Homog [.str "b", .str "a"] := Or.inl (by intro x hx; simp at hx; rcases hx with rfl | rfl <;> exact ⟨_, rfl⟩)
+
+end JmesVerif
+
+#print axioms JmesVerif.C02_sort
+#print axioms JmesVerif.C02_sort_perm
+#print axioms JmesVerif.C02_sort_sorted
+#print axioms JmesVerif.C02_sort_stable
+#print axioms JmesVerif.C02_sort_by
+#print axioms JmesVerif.C02_max_by
+#print axioms JmesVerif.C02_min_by
+#print axioms JmesVerif.C02_max
+#print axioms JmesVerif.C02_min
+#print axioms JmesVerif.C02_merge
+#print axioms JmesVerif.C02_length_codepoints
+#print axioms JmesVerif.C02_reverse_codepoints
+#print axioms JmesVerif.C02_keys_values
+#print axioms JmesVerif.C02_to_number
+#print axioms JmesVerif.C02_avg_empty
+#print axioms JmesVerif.C02_avg
+#print axioms JmesVerif.C02_map_length
+#print axioms JmesVerif.C02_expref_once_per_element
+#print axioms JmesVerif.C02_not_null
+#print axioms JmesVerif.C02_contains
+#print axioms JmesVerif.C02_starts_with
+#print axioms JmesVerif.C02_ends_with
+#print axioms JmesVerif.C02_join
